@@ -121,6 +121,44 @@ impl Shadow {
         }
     }
 
+    /// Does the recorded I/O explain what is in `dir` now? (`None` = yes.) A difference means the
+    /// code did file I/O that bypasses SQLite's VFS (std::fs writes, renames): the crash model
+    /// cannot vouch for such I/O.
+    pub fn unexplained(&self, dir: &Path) -> Option<String> {
+        let mut on_disk: BTreeMap<String, Vec<u8>> = BTreeMap::new();
+        if let Ok(rd) = std::fs::read_dir(dir) {
+            for e in rd.flatten() {
+                if e.file_type().map(|t| t.is_file()).unwrap_or(false) {
+                    let name = e.path().to_string_lossy().to_string();
+                    if tracked(&name) {
+                        if let Ok(d) = std::fs::read(e.path()) {
+                            on_disk.insert(short(&name).to_string(), d);
+                        }
+                    }
+                }
+            }
+        }
+        let mut model: BTreeMap<String, &Vec<u8>> = BTreeMap::new();
+        for (n, f) in &self.files {
+            if f.exists {
+                model.insert(short(n).to_string(), &f.cur);
+            }
+        }
+        for (n, d) in &on_disk {
+            match model.get(n) {
+                None => return Some(format!("file {n} ({} bytes) exists although no I/O through the VFS created it", d.len())),
+                Some(m) if *m != d => return Some(format!("file {n} holds {} bytes that differ from the {} bytes the recorded writes produce", d.len(), m.len())),
+                _ => {}
+            }
+        }
+        for n in model.keys() {
+            if !on_disk.contains_key(n) {
+                return Some(format!("file {n} was written through the VFS but is gone"));
+            }
+        }
+        None
+    }
+
     /// What the OS shows after a process crash (all writes so far; page cache intact).
     pub fn process_image(&self) -> Image {
         let mut im = Image::default();
